@@ -121,6 +121,16 @@ thrown exceptions.
 
 _PKG_DIR_PATH = os.path.dirname(os.path.abspath(__file__))
 
+def _wrapper_setattr(self, name, value):
+    # glom's own bookkeeping bypasses the wrapped class's __setattr__ (which may
+    # refuse); everything else goes through it, as on the original exception
+    if name.startswith('_GlomError__') or name in ('_tb_lines', '_scope', '_finalized_str',
+                                                   '_target_spec_trace'):
+        BaseException.__setattr__(self, name, value)
+    else:
+        super(type(self), self).__setattr__(name, value)
+
+
 class GlomError(Exception):
     """The base exception for all the errors that might be raised from
     :func:`glom` processing logic.
@@ -144,7 +154,7 @@ class GlomError(Exception):
             # (nor may its __setattr__ keep the wrapper from recording the trace)
             exc_wrapper_type = type(f"GlomError.wrap({exc_type.__name__})", bases,
                                     {'__str__': GlomError.__str__,
-                                     '__setattr__': BaseException.__setattr__})
+                                     '__setattr__': _wrapper_setattr})
             wrapper = exc_wrapper_type(*exc.args)
             if wrapper.args != exc.args:  # re-creation changed the args
                 return exc
